@@ -46,6 +46,9 @@ def bulk_script(name, rng, dgram, variant):
 def run(ctx):
     if ctx.replay:
         _rp = vlib.json.load(open(ctx.replay)).get("replay")
+        if isinstance(_rp, dict) and "beh" in _rp and "listen" in _rp:          # updial_extra (drv_updial)
+            import updial_extra
+            return updial_extra.run_udp_fallback(ctx)
         if isinstance(_rp, dict) and "mode" in _rp and "script" in _rp:   # a replay file of the pool extension (drv_pool)
             import poollib
             return poollib.replay(ctx)
@@ -57,6 +60,8 @@ def run(ctx):
         return pc.replay(ctx, TRACE_CFG)
     import stream_extra
     _bg_stream = vlib.background(ctx, stream_extra.run_extra, "stream_extra")
+    import updial_extra   # udp upstream with TCP fallback: the caller never gets a released / foreign buffer
+    _bg_udpfb = vlib.background(ctx, updial_extra.run_udp_fallback, "updial_udp_fallback")
     T = ctx.thorough()
     rng = random.Random(ctx.seed)
     ctx.assumptions += [
@@ -161,6 +166,7 @@ def run(ctx):
 
     # ---- DoH / DoQ (one private request / stream per call): spec/StreamPerQuery.tla, harness/drv_stream
     _bg_stream.join()
+    _bg_udpfb.join()
 
     # ---- the same property on the connection pools (reuse.go, pipeline.go + conn_lazy_dial.go):
     # spec/ReuseConn.tla, spec/LazyPipeline.tla, harness/drv_pool (checks/pool_extra.py)
